@@ -347,8 +347,7 @@ func (c *Chain) Apply(e *Ev) bool {
 		if c.Phase != "deliver" || e.RParams == nil {
 			return false
 		}
-		c.SetParams(*e.RParams)
-		out = Outcome{OK: true}
+		out = c.SetParams(*e.RParams)
 	case "BankSend":
 		out = c.run(func(ctx sdk.Context) error {
 			return c.App.BankKeeper.SendCoins(ctx, c.A(e.Signer), c.A(e.To), sdk.NewCoins(sdk.NewCoin(Denom, sdk.NewInt(e.Amount))))
